@@ -33,9 +33,20 @@ def main():
   a = ap.parse_args()
   if a.setup:
     sys.exit(setup())
-  mod = importlib.import_module('harness.' + a.prop.lower())
   tier = a.tier if a.tier in ('quick', 'thorough') else 'quick'
-  sys.exit(fw.run_property(mod, tier, a.seed, a.replay))
+  try:
+    mod = importlib.import_module('harness.' + a.prop.lower())
+    rc = fw.run_property(mod, tier, a.seed, a.replay)
+  except Exception:   # the harness itself could not run against this tree: the tie is broken
+    import traceback
+    tb = traceback.format_exc()
+    path = fw.write_replay(a.prop, {'kind': 'broken-tie', 'case': None, 'tier': tier, 'seed': a.seed,
+                                    'broken': [{'kind': 'harness-crash', 'traceback': tb[-4000:]}],
+                                    'note': 'the harness could not be run against this tree (import / API error); the property is no longer shown to hold'})
+    sys.stderr.write(tb)
+    print(f'VIOLATION property={a.prop} replay={path} no-failing-input-found', flush=True)
+    rc = 1
+  sys.exit(rc)
 
 
 if __name__ == '__main__':
